@@ -158,11 +158,11 @@ CLAIMED['C01'] = dict(
 CLAIMED['C08'] = dict(
     text='PARTIAL. Lean 4 theorems: a non-bidirectional delta refuses subtraction; reversal is an involution on every ordered-mode payload and swaps the additive categories; a '
          'values_changed/type_changes entry whose location holds a value != the recorded old value adds an error in any state, errors are never forgotten through any later '
-         'phase, hence (C08_detects) a corrupted base is never accepted silently by the values_changed phase; exact inversion end to end for every pair of flat dictionaries - string keys, scalar values, any threshold (C08_flat_dict_inverse: with the bidirectional payload t1 + delta == t2 and t2 - delta == t1, every recorded old value verified, no error logged) and of lists of scalars in positional mode (C08_list_positional_inverse). ' + _DELTAMODEL + 'Exact inversion for the other shapes (t2 - delta == t1, re-adding, '
+         'phase, hence (C08_detects) a corrupted base is never accepted silently by the values_changed phase; exact inversion end to end for every pair of flat dictionaries - string keys, scalar values, any threshold (C08_flat_dict_inverse: with the bidirectional payload t1 + delta == t2 and t2 - delta == t1, every recorded old value verified, no error logged), of nested dictionaries of any depth (C08_nested_dict_inverse: the reversed payload of a level is the family of the reversed payloads of the children, so the same level lemma applies with the two dictionaries exchanged) and of lists of scalars in positional mode (C08_list_positional_inverse). ' + _DELTAMODEL + 'Exact inversion for the other shapes (t2 - delta == t1, re-adding, '
          '+,-,+ sequences <= 6) is decided on the implementation over generated pairs; every single-location corruption at a values_changed/type_changes path is applied with '
          'raise_errors True and False and compared with the model.',
     design='5/C08',
-    note='Trusted: Lean kernel; logging. Exact inversion beyond flat dictionaries and positional lists of scalars rests on evaluation + model correspondence (its Lean theorem is not proved yet). Fixed in /repo: F23 '
+    note='Trusted: Lean kernel; logging. Exact inversion beyond nested dictionaries and positional lists of scalars rests on evaluation + model correspondence (its Lean theorem is not proved yet). Fixed in /repo: F23 '
          '(__rsub__ left the delta reversed after an exception). Known findings F4b, F4c.',
     technique='Lean 4 proof (monotone error counter by induction over entries and phases) + differential correspondence incl. corrupted bases')
 CLAIMED['C16'] = dict(
